@@ -27,6 +27,7 @@ RULE += (
          'return / exception still pull every element exactly once. ')
 RULE += (
          'Re-entered template variant; page sizes 20..250. ')
+RULE += ('Round 8: the bound uses the requested size whenever one is given. ')
 ASSUMPTIONS = [
     'bound = last displayed element + step size + orphan; when size < 1 the '
     'reported sequence-step-size is used',
